@@ -41,6 +41,11 @@ ASSUMPTIONS = [
     "torn writes inside one bytecode are out of reach without free-threaded CPython",
     "under python -O rebinding ops are not generated (the statement limits raising to the "
     "default interpreter mode)",
+    "field values honour Python's own contract (a == b implies hash(a) == hash(b)): no numpy "
+    "dtype next to the scalar type it equals, no np.float64(2**53) next to 2**53+1 -- for such "
+    "leaves the generated __eq__ (hash first) already answers False on the unchanged tree",
+    "a pair of objects whose fields cannot be compared at all (numpy scalar == () raises) has "
+    "no defined equality: == and look-ups that raise for that reason alone are not reported",
 ]
 EXPECTED_PROBES = ["ops_after_first_hash", "twin_pairs", "near_miss_pairs", "typed_variant_pairs",
                    "lookup_hits", "lookup_misses", "rebind_attempts", "copies_before_hash",
